@@ -109,7 +109,7 @@ def seq_next(ex, it):
     if not ex.branch(lt(it.lo, it.hi)):
         return NoneV()
     v = elem_at(ex, it, it.lo)
-    it.lo = add(it.lo, 1)
+    it.lo = add(it.lo, getattr(it, '_last_width', 1) if it.unit == 'char' else 1)
     return Some(v)
 
 
@@ -125,8 +125,19 @@ def elem_at(ex, it, j):
     """the element whose first byte is at absolute index j (maps applied)"""
     b = it.s.buf.at(j)
     if it.unit == 'char':
-        if not ex.branch(lt(b, 128)):
-            raise Unsupported('decoding of a non-ASCII char element')
+        # UTF-8 decoding of the scalar value that starts at j (the slice is valid UTF-8: the &str type guarantees it)
+        c = lambda k: sub(it.s.buf.at(add(j, k)), 128)
+        if ex.branch(lt(b, 128)):
+            it._last_width = 1
+        elif ex.branch(lt(b, 0xE0)):
+            b = add(mul(sub(b, 0xC0), 64), c(1))
+            it._last_width = 2
+        elif ex.branch(lt(b, 0xF0)):
+            b = add(add(mul(sub(b, 0xE0), 4096), mul(c(1), 64)), c(2))
+            it._last_width = 3
+        else:
+            b = add(add(add(mul(sub(b, 0xF0), 262144), mul(c(1), 4096)), mul(c(2), 64)), c(3))
+            it._last_width = 4
     v = Ref(Cell(b)) if it.byref else b
     for m in it.maps:
         v = apply_fn(ex, m, [v])
@@ -335,13 +346,13 @@ def hook(ex, func, argv, frame):
     if g == 'core::str::<impl str>::trim_end_matches' and f.endswith('::<&str>'):
         s, pat = deref(a[0]), deref(a[1])
         if pat.concrete() and 0 < len(pat.bytes()) <= 2:
-            # repeated removal of a 1- or 2-byte literal from the end, at most LMAX/len times: unrolled twice, then refused
+            # repeated removal of a 1- or 2-byte literal from the end, at most LMAX/len times
             cur = s
-            for _ in range(3):
+            for _ in range(ex.lmax // len(pat.bytes()) + 1):
                 if not ex.branch(models.ends_with(ex, cur, pat)):
                     return True, cur
                 cur = Str(cur.buf, cur.start, sub(cur.end, len(pat.bytes())), cur.is_str)
-            raise Unsupported('trim_end_matches removed the pattern more than 3 times')
+            raise Unsupported('trim_end_matches did not terminate within LMAX')
     # ---- iterator constructors
     if g in ('core::slice::<impl [u8]>::iter', 'core::slice::<impl [T]>::iter'):
         s = deref(a[0])
@@ -453,11 +464,7 @@ def hook(ex, func, argv, frame):
             raise Unsupported('len of a char iterator')
         return True, sub(it.hi, it.lo)
     if meth == 'next':
-        if not ex.branch(lt(it.lo, it.hi)):
-            return True, NoneV()
-        v = elem_at(ex, it, it.lo)
-        it.lo = add(it.lo, 1)
-        return True, Some(v)
+        return True, seq_next(ex, it)
     if meth == 'nth':
         if it.unit != 'byte':
             raise Unsupported('nth on a char iterator')
